@@ -246,16 +246,28 @@ def unit_length(eng, kind):
                   func="deferred.%s.length" % {"S": "SizedDeferred", "D": "Deferred", "DS": "Deferred"}[kind])
 
 
-def unit_concat(eng, kinds):
-    """a + b (+ c): F(result) == F(a) ++ F(b) ++ F(c) and length() == sum of the parts' lengths, through the real __add__/__radd__/Concatenator"""
-    name = "concat[%s]" % "+".join(kinds)
+def unit_concat(eng, kinds, assoc="left"):
+    """a + b (+ c (+ d)) in every association the compiler produces - ((a+b)+c), a+(b+c) (a statement's chunk prepended to a block's
+    concatenation), (a+b)+(c+d): F(result) == F(a) ++ F(b) ++ ... in order and length() == sum of the parts' lengths, through the real
+    __add__/__radd__/Concatenator"""
+    name = "concat[%s%s]" % ("+".join(kinds), "" if assoc == "left" else "," + assoc)
 
     def run(eng):
         real(eng)
         parts = [sym_chunk(eng, k, "B%d" % i) for i, k in enumerate(kinds)]
         eng.I["parts"] = parts
-        acc = parts[0][0]
-        for p in parts[1:]:
+        A = ast.Add()
+        if assoc == "right":
+            acc = parts[-1][0]
+            for p in reversed(parts[:-1]):
+                acc = eng.binop(A, p[0], acc)
+        elif assoc == "pairs":
+            left = eng.binop(A, parts[0][0], parts[1][0])
+            right = parts[2][0] if len(parts) == 3 else eng.binop(A, parts[2][0], parts[3][0])
+            acc = eng.binop(A, left, right)
+        else:
+            acc = parts[0][0]
+        for p in (parts[1:] if assoc == "left" else []):
             acc = eng.binop(ast.Add(), acc, p[0])
         eng.I["acc"] = acc
         ln = eng.call(eng.getattr(acc, "length"), [], {}) if isinstance(acc, Obj) else slen(acc)
@@ -270,7 +282,40 @@ def unit_concat(eng, kinds):
         want = parts[0][1] if len(parts) == 1 else z3.Concat(*[p[1] for p in parts])
         eng.prove("final-bytes-are-the-parts-in-order", zbytes(fb) == want)
         eng.prove("length()-is-the-sum-of-the-parts'-lengths", ln == sum([p[2] for p in parts[1:]], parts[0][2]))
-    return verify(eng, name, run, post, func="deferred.Concatenator / BaseDeferred.__add__")
+    r = verify(eng, name, run, post, func="deferred.Concatenator / BaseDeferred.__add__")
+    for o_ in r["obligations"]:
+        o_["cfg"] = dict(kind="concat", kinds=list(kinds), assoc=assoc)
+    return r
+
+
+def replay_concat(cfg, tree):
+    """the same association on the real deferred.py with concrete parts"""
+    from pyvc import driver
+    code = """
+from pdpy11.deferred import Deferred, SizedDeferred, wait
+kinds, assoc = %r, %r
+vals = [bytes([65 + i]) * (i + 1) for i in range(len(kinds))]
+def mk(k, v):
+    if k == "b": return v
+    if k == "S": return SizedDeferred(bytes, len(v), lambda v=v: v)
+    return Deferred(bytes, lambda v=v: v)
+parts = [mk(k, v) for k, v in zip(kinds, vals)]
+if assoc == "right":
+    acc = parts[-1]
+    for p in reversed(parts[:-1]): acc = p + acc
+elif assoc == "pairs":
+    acc = (parts[0] + parts[1]) + (parts[2] if len(parts) == 3 else parts[2] + parts[3])
+else:
+    acc = parts[0]
+    for p in parts[1:]: acc = acc + p
+got = wait(acc)
+ln = wait(acc.length()) if hasattr(acc, "length") else len(acc)
+result = dict(want=b"".join(vals).hex(), got=got.hex(), length=ln, ok=(got == b"".join(vals) and ln == len(b"".join(vals))))
+""" % (list(cfg["kinds"]), cfg["assoc"])
+    jobs = [dict(kind="py", code=code)]
+    r = driver.native(jobs, tree)[0]
+    r = r.get("result") or r
+    return dict(jobs=jobs, observed=r, reproduced=isinstance(r, dict) and r.get("ok") is False)
 
 
 def unit_empty_add(eng):
@@ -711,6 +756,12 @@ def all_units():
     for n in (2, 3):
         for kinds in itertools.product(("b", "S", "D"), repeat=n):
             us.append(("concat[%s]" % "".join(kinds), "unit_concat", dict(kinds=kinds)))
+    for kinds in itertools.product(("b", "S", "D"), repeat=3):
+        us.append(("concat[%s,right]" % "".join(kinds), "unit_concat", dict(kinds=kinds, assoc="right")))
+        us.append(("concat[%s,pairs]" % "".join(kinds), "unit_concat", dict(kinds=kinds, assoc="pairs")))
+    for kinds in (("b", "S", "b", "S"), ("S", "b", "b", "D"), ("b", "b", "S", "S"), ("S", "S", "b", "b"), ("b", "D", "b", "D")):
+        for assoc in ("right", "pairs"):
+            us.append(("concat[%s,%s]" % ("".join(kinds), assoc), "unit_concat", dict(kinds=kinds, assoc=assoc)))
     for opn in ("add", "sub"):
         for sh in POLY_SHAPES:
             us.append(("poly[%s,%s]" % (opn, sh), "unit_poly_binop", dict(opname=opn, shape=sh)))
